@@ -452,14 +452,15 @@ func dumpBT(t *btree.Tree[int, int]) []int64 {
 	return out
 }
 
-func dumpKey(d []int64, size int) string {
+// canonical key of a reachable state = the shape dump ONLY. Size() is deliberately not part of it: a defect that
+// makes the cached size drift would otherwise create endlessly many "new" states (the transition that shows the
+// wrong size is still recorded and judged).
+func dumpKey(d []int64) string {
 	var sb strings.Builder
 	for _, x := range d {
 		sb.WriteString(strconv.FormatInt(x, 36))
 		sb.WriteByte(',')
 	}
-	sb.WriteByte('#')
-	sb.WriteString(strconv.Itoa(size))
 	return sb.String()
 }
 
@@ -469,6 +470,8 @@ type DTree interface {
 	Remove(k int)
 	Clear()
 	Size() int
+	Empty() bool
+	Keys() []int
 	Dump() []int64
 }
 type rbD struct{ t *rbt.Tree[int, int] }
@@ -477,6 +480,8 @@ func (a rbD) Put(k, v int)  { a.t.Put(k, v) }
 func (a rbD) Remove(k int)  { a.t.Remove(k) }
 func (a rbD) Clear()        { a.t.Clear() }
 func (a rbD) Size() int     { return a.t.Size() }
+func (a rbD) Empty() bool   { return a.t.Empty() }
+func (a rbD) Keys() []int   { return a.t.Keys() }
 func (a rbD) Dump() []int64 { return dumpRB(a.t) }
 
 type avlD struct{ t *avltree.Tree[int, int] }
@@ -485,6 +490,8 @@ func (a avlD) Put(k, v int)  { a.t.Put(k, v) }
 func (a avlD) Remove(k int)  { a.t.Remove(k) }
 func (a avlD) Clear()        { a.t.Clear() }
 func (a avlD) Size() int     { return a.t.Size() }
+func (a avlD) Empty() bool   { return a.t.Empty() }
+func (a avlD) Keys() []int   { return a.t.Keys() }
 func (a avlD) Dump() []int64 { return dumpAVL(a.t) }
 
 type btD struct{ t *btree.Tree[int, int] }
@@ -493,6 +500,8 @@ func (a btD) Put(k, v int)  { a.t.Put(k, v) }
 func (a btD) Remove(k int)  { a.t.Remove(k) }
 func (a btD) Clear()        { a.t.Clear() }
 func (a btD) Size() int     { return a.t.Size() }
+func (a btD) Empty() bool   { return a.t.Empty() }
+func (a btD) Keys() []int   { return a.t.Keys() }
 func (a btD) Dump() []int64 { return dumpBT(a.t) }
 
 type treeKind struct {
